@@ -24,7 +24,8 @@ META = {
              'are exactly the existing nodes named by the model (overlapping entry points, unknown steps). Bounded-exhaustive: '
              'all sequences of length <= 4 (thorough 5) of 14 operations over 2 attackers x 3 nodes; non-trivial = history with '
              'a removal or undo after a compromise; distinct = digest(start, history)'
-             '; added strata: registrations that are refused (unknown step after known ones, id in use) followed by valid operations; attach again after a missing entry node came back through regenerate_graph'),
+             '; added strata: registrations that are refused (unknown step after known ones, id in use) followed by valid operations; attach again after a missing entry node came back through regenerate_graph'
+             '; round 7: removals through the pruning analyzer; node objects that left the graph may only list attackers that list them'),
     'assumptions': ['identity-based comparison; attackers are told apart as objects, not by name or id'],
     'shards': {'quick': 8, 'thorough': 16},
     'quotas': {
